@@ -124,6 +124,32 @@ Example C01_bulk_nonvacuous :
   preds (get (hp (run init bulk_ops)) 4) = [1; 2] /\ preds (get (hp (run init bulk_ops)) 3) = [4].
 Proof. vm_compute. repeat split; reflexivity. Qed.
 
+(* ---- the tie to the source text: the dependency closures behind the cycle checks -----------------------------------
+   gen/SrcGraph.v is produced on every run by harness/srcgen from the *current source text* of task.py.  The nested
+   generators of Task.__get_all_predecessors / __get_all_successors (each neighbour followed by its own walk), translated
+   from their source, are the model's naive closure [closf] for every heap, task and fuel - cyclic heaps included, where
+   both run out of fuel (Python: RecursionError) - and the methods return its first occurrences (_unique_tasks = dedup). *)
+From PJ Require Import gen.SrcGraph Graph.SrcGraphEquiv.
+
+Theorem C01_src_get_predecessor : forall n h t,
+  src_get_predecessor (S n) h t = lift_walk (closf (fun y => preds (get h y)) n t).
+Proof. exact src_get_predecessor_eq. Qed.
+
+Theorem C01_src_get_successor : forall n h t,
+  src_get_successor (S n) h t = lift_walk (closf (fun y => succs (get h y)) n t).
+Proof. exact src_get_successor_eq. Qed.
+
+Theorem C01_src_unique_tasks : forall l, src_unique_tasks l = Ok (dedup l).
+Proof. exact src_unique_tasks_eq. Qed.
+
+Theorem C01_src_all_predecessors : forall h t,
+  src_all_predecessors (S (length h)) h t = match all_preds h t with Ok l => Ok (dedup l) | Err => Err | Crash k => Crash k end.
+Proof. exact src_all_predecessors_eq. Qed.
+
+Theorem C01_src_all_successors : forall h t,
+  src_all_successors (S (length h)) h t = match all_succs h t with Ok l => Ok (dedup l) | Err => Err | Crash k => Crash k end.
+Proof. exact src_all_successors_eq. Qed.
+
 Print Assumptions C01_step.
 Print Assumptions C01_step_shape.
 Print Assumptions C01_public_stays_public.
@@ -139,3 +165,8 @@ Print Assumptions C01_demo_wf.
 Print Assumptions C01_illformed_rejected_by_wf_b.
 Print Assumptions C01_demo_rejections.
 Print Assumptions C01_bulk_nonvacuous.
+Print Assumptions C01_src_get_predecessor.
+Print Assumptions C01_src_get_successor.
+Print Assumptions C01_src_unique_tasks.
+Print Assumptions C01_src_all_predecessors.
+Print Assumptions C01_src_all_successors.
